@@ -137,8 +137,9 @@ class C17(Base):
                              else "valid_incomplete", s,
                              f"next() raised {exc}({msg!r}) after {at} "
                              f"actions for the valid tuple {s.cfg}")
-                elif s.how == "no_conclusion" or s.how not in ("enough",
-                                                               "stop"):
+                elif s.how is None:
+                    continue        # the op list ends before the stream does
+                elif s.how == "no_conclusion":
                     self.own(w, "valid_incomplete", s,
                              f"stream did not conclude ({s.how})")
                 elif guard:
